@@ -1,14 +1,47 @@
 import FranzVerif.Model.Group
-/-! History-level observables for the consumer-group monitor (C07, C08) and helper lemmas. -/
+/-! History-level observables for the consumer-group monitor (C07, C08) and helper lemmas.
+
+Layout of the proof:
+* this file: the observables and `run` on a concatenation (`run_append`, `run_split`, `run_snoc`);
+* `Proof/GroupOwn.lean` (C07): the callback view `cb` of an event, how `apply` changes the owner map and the
+  callback in progress (`mem_owner_apply`, `cur_apply`), the state invariant `OwnerFn`, and the forward
+  inductions over a history suffix: ownership is only lost through a completed revoked/lost callback
+  (`lost_ownership`), a completed callback releases (`released_not_owner`), ownership only arises through an
+  assigned callback (`owner_of_no_assign`);
+* `Proof/GroupCommit.lean` (C08): how each observable changes on `h ++ [ev]`, the invariant `Inv h s` relating
+  the state reached by `run` to the observables, its preservation by every accepted event, `inv_of_run`. -/
 namespace Proof.Group
 open Model.Group
+
+/-- The next revoked/lost callback event of `m` in `h` is the end of a callback (and not the start of
+another one): the callback of `m` that is in progress where `h` begins completes in `h`. The monitor does not
+record whether a callback in progress is a revoked or a lost one, so either end event completes it. -/
+def completes (m : Mem) : List Ev → Bool
+  | [] => false
+  | .revokeStart m' _ :: rest => if m' = m then false else completes m rest
+  | .lostStart m' _ :: rest => if m' = m then false else completes m rest
+  | .revokeEnd m' :: rest => if m' = m then true else completes m rest
+  | .lostEnd m' :: rest => if m' = m then true else completes m rest
+  | _ :: rest => completes m rest
 
 /-- `m` released partition `p` somewhere in `h`: a revoked or lost callback of `m` that listed `p` completed. -/
 def released (m : Mem) (p : Nat) : List Ev → Bool
   | [] => false
-  | .revokeStart m' ps :: rest => (m' == m && ps.contains p && rest.any (fun e => e == .revokeEnd m)) || released m p rest
-  | .lostStart m' ps :: rest => (m' == m && ps.contains p && rest.any (fun e => e == .lostEnd m)) || released m p rest
+  | .revokeStart m' ps :: rest => (m' == m && ps.contains p && completes m rest) || released m p rest
+  | .lostStart m' ps :: rest => (m' == m && ps.contains p && completes m rest) || released m p rest
   | _ :: rest => released m p rest
+
+/-- one step of `inProgress` -/
+def progStep (m : Mem) (acc : Option (List Nat)) : Ev → Option (List Nat)
+  | .revokeStart m' ps => if m' = m then some ps else acc
+  | .lostStart m' ps => if m' = m then some ps else acc
+  | .revokeEnd m' => if m' = m then none else acc
+  | .lostEnd m' => if m' = m then none else acc
+  | _ => acc
+
+/-- the partitions listed by the revoked/lost callback of `m` that is in progress at the end of `h`
+(entered and not yet returned), if there is one -/
+def inProgress (m : Mem) (h : List Ev) : Option (List Nat) := h.foldl (progStep m) none
 
 /-- next offset of partition `p` covered by polls of `m` that were followed by another poll of `m`, within `h` -/
 def processedUpTo (m : Mem) (p : Nat) : List Ev → Nat
@@ -24,5 +57,53 @@ def committedUpTo (p : Nat) (h : List Ev) : Nat :=
 def producedOf (h : List Ev) : List (Id × Nat × Nat) :=
   h.filterMap (fun e => match e with | .produced i p o => some (i, p, o) | _ => none)
 def isIncomplete (h : List Ev) : Bool := h.any (fun e => e == .incomplete)
+
+/-! ### `run` on a concatenation -/
+
+theorem step_eq_some {c : Cfg} {s s' : St} {ev : Ev} (hs : step c s ev = some s') :
+    check c s ev = none ∧ s' = apply c s ev := by
+  unfold step at hs
+  split at hs
+  · simp at hs; exact ⟨by assumption, hs.symm⟩
+  · simp at hs
+
+theorem run_cons {c : Cfg} {s s' : St} {e : Ev} {es : List Ev} (hr : run c s (e :: es) = some s') :
+    check c s e = none ∧ run c (apply c s e) es = some s' := by
+  simp only [run] at hr
+  cases hs : step c s e with
+  | none => simp [hs] at hr
+  | some s1 =>
+    simp only [hs] at hr
+    obtain ⟨hchk, rfl⟩ := step_eq_some hs
+    exact ⟨hchk, hr⟩
+
+theorem run_append (c : Cfg) (s : St) (h₁ h₂ : List Ev) :
+    run c s (h₁ ++ h₂) = (run c s h₁).bind (fun s' => run c s' h₂) := by
+  induction h₁ generalizing s with
+  | nil => rfl
+  | cons e es ih =>
+    simp only [List.cons_append, run]
+    cases step c s e with
+    | none => rfl
+    | some s' => exact ih s'
+
+/-- an accepted history decomposes at any event -/
+theorem run_split {c : Cfg} {s₀ : St} {h₁ h₂ : List Ev} {ev : Ev} {s : St} (hacc : run c s₀ (h₁ ++ ev :: h₂) = some s) :
+    ∃ s₁, run c s₀ h₁ = some s₁ ∧ check c s₁ ev = none ∧ run c (apply c s₁ ev) h₂ = some s := by
+  rw [run_append] at hacc
+  cases h1 : run c s₀ h₁ with
+  | none => simp [h1] at hacc
+  | some s₁ =>
+    simp only [h1, Option.bind_some] at hacc
+    obtain ⟨hchk, hr⟩ := run_cons hacc
+    exact ⟨s₁, rfl, hchk, hr⟩
+
+theorem run_snoc {c : Cfg} {s₀ : St} {h : List Ev} {ev : Ev} {s : St} (hacc : run c s₀ (h ++ [ev]) = some s) :
+    ∃ s₁, run c s₀ h = some s₁ ∧ check c s₁ ev = none := by
+  obtain ⟨s₁, h1, h2, _⟩ := run_split hacc
+  exact ⟨s₁, h1, h2⟩
+
+theorem isSome_run {c : Cfg} {s₀ : St} {h : List Ev} (hacc : (run c s₀ h).isSome) : ∃ s, run c s₀ h = some s :=
+  Option.isSome_iff_exists.1 hacc
 
 end Proof.Group
